@@ -538,10 +538,10 @@ int bufr_load_wmo_tables_list ( LinkedList *list, char *path )
 	    {
             tables = bufr_create_tables();
             tables->master.version = version;
-            sprintf( filename, "%s/%s/BUFRCREX_%s_TableB_en.txt", path, verdir, verstmp );
+            snprintf( filename, sizeof(filename), "%s/%s/BUFRCREX_%s_TableB_en.txt", path, verdir, verstmp );
             rtrnB = bufr_load_csv_tableB( tables, filename );
 
-            sprintf( filename, "%s/%s/BUFR_%s_TableD_en.txt", path, verdir, verstmp );
+            snprintf( filename, sizeof(filename), "%s/%s/BUFR_%s_TableD_en.txt", path, verdir, verstmp );
             rtrnD = bufr_load_csv_tableD( tables, filename );
 
             if ((rtrnD >= 0) && (rtrnB >= 0 ))
